@@ -8,17 +8,29 @@ from sa.report import ModelViolation, Report, Undecided
 
 
 _ACTIVE = []
+_CACHE = {}
 
 
 def include(rep, src, other_pid, rules, as_rule, clause, at_prefix=None):
     if other_pid in _ACTIVE or rep.pid in _ACTIVE[:-1]:
         return  # mutual inclusion: the outer run already decides that rule set
     mod = importlib.import_module(f"sa.props.{other_pid.lower()}")
+    key = (id(src), other_pid, rep.tier, tuple(_ACTIVE), rep.pid)
     sub = Report(other_pid, rep.tier, rep.seed)
     _ACTIVE.append(rep.pid)
     _ACTIVE.append(other_pid)
     try:
-        mod.check(src, sub)
+        if key in _CACHE:
+            sub, exc = _CACHE[key]
+            if exc is not None:
+                raise exc
+        else:
+            try:
+                mod.check(src, sub)
+            except Exception as exc:
+                _CACHE[key] = (sub, exc)
+                raise
+            _CACHE[key] = (sub, None)
     except Undecided as e:
         rep.undecide(f"{as_rule} clause '{clause}' depends on the rule set of {other_pid}, which is undecided: {str(e)[:160]}")
         return
@@ -44,6 +56,13 @@ def include(rep, src, other_pid, rules, as_rule, clause, at_prefix=None):
         if rules is None or f.rule in rules:
             n += 1
             rep.violation(as_rule, f.at, f"{other_pid}/{f.rule}:{f.construct}", f"{clause}: {f.reason}", f.file, f.line, f.witness)
+    if n == 0 and rules is not None and sub.undecided:
+        # a rule this clause depends on that the sibling never got to (its evaluation stopped earlier): not decided
+        done = {r for r, *_ in sub.obligations}
+        miss = sorted(r for r in rules if r not in done)
+        if miss and not any(f"depends on {other_pid}" in u for u in rep.undecided):
+            rep.undecide(f"{as_rule} clause '{clause}' depends on {other_pid}/{','.join(miss)}, not evaluated there: {sub.undecided[0][:160]}")
+            return
     if n == 0:
         cnt = sum(1 for r, *_ in sub.obligations if rules is None or r in rules)
         rep.ok(as_rule, f"{clause} (rules {other_pid}/{','.join(sorted(rules)) if rules else 'all'})", f"{cnt} obligations of the sibling rule set discharged on the same source", nontrivial=False)
